@@ -88,7 +88,9 @@ def evPrims (c : Circ) (fuel : Nat) (b : Blk) (d : Nat) (stk0 : List Frame) :
     if !paramsOk h data then (s, .raise ⟨.typeError, false, false⟩)
     else liftCall (inFrame d stk0 s data (fun s4 => handlerBody (deliver c fuel) b d s4 h.1 data))
   callDefault := fun et data s =>
-    if b.kind = .fsm then liftCall (inFrame d stk0 s data (fun s4 => fsmEvent (deliver c fuel) b d stk0 s4 et))
+    if b.kind = .fsm then liftCall (inFrame d stk0 s data (fun s4 => fsmEvent (deliver c fuel) b d stk0 s4 et data))
+    else if b.kind = .repeat then
+      liftCall (inFrame d stk0 s data (fun s4 => repeatEvent (deliver c fuel) b d s4 et data))
     else (s, .raise ⟨.unknownEvent, true, false⟩)
   noneVal := Val.none
 
@@ -299,15 +301,29 @@ theorem callPart_model (et : EType) (data : Data) (s3 : St) :
     simp only [hl, callPart, M.tryExcept, M.bind, evPrims, hk, if_true]
     unfold inHandler liftCall inFrame
     simp only []
-    generalize fsmEvent (deliver c fuel) b d stk0 _ et = p
+    generalize fsmEvent (deliver c fuel) b d stk0 _ et data = p
     obtain ⟨s', r⟩ := p
     cases r with
     | ret v => simp [M.pure, toResV, classify]
     | exc x => cases x <;> simp [toResV, classify, excIs, M.raise, M.bind, M.modify, M.pure, mkExc, St.abort]
   · simp only [hk, if_false]
+    by_cases hr : b.kind = .repeat
+    · simp only [hr, if_true]
+      have hl : lookupHandler .repeat et = Option.none := by
+        cases et <;> simp [lookupHandler, handlersOf]
+      simp only [hl, callPart, M.tryExcept, M.bind, evPrims, hr, if_true]
+      simp only [show (BKind.repeat = BKind.fsm) = False from by simp, if_false]
+      unfold inHandler liftCall inFrame
+      simp only []
+      generalize repeatEvent (deliver c fuel) b d _ et data = p
+      obtain ⟨s', r⟩ := p
+      cases r with
+      | ret v => simp [M.pure, toResV, classify]
+      | exc x => cases x <;> simp [toResV, classify, excIs, M.raise, M.bind, M.modify, M.pure, mkExc, St.abort]
+    simp only [hr, if_false]
     cases hl : lookupHandler b.kind et with
     | none =>
-      simp [callPart, M.tryExcept, M.bind, evPrims, hk, excIs, M.raise, toResV]
+      simp [callPart, M.tryExcept, M.bind, evPrims, hk, hr, excIs, M.raise, toResV]
     | some h =>
       simp only [callPart, M.tryExcept, M.bind, evPrims]
       by_cases hp : paramsOk h data = true
